@@ -142,3 +142,8 @@ func init() {
 	prop("C09", "C13-R8")
 	prop("C01", "C13-R8")
 }
+
+func init() {
+	prop("C07", "C13-R8")
+	prop("C17", "C13-R8")
+}
